@@ -190,7 +190,7 @@ def _run(ctx):
     dt = 2.0 ** -6
     three = [REF, [-9, -6, -9], [-3, 0, -3]]
     fams = {
-        "no-screening/fixed-dt": dict(kind="barhole", dt=dt, solve_time=(24 if ctx.quick else 60) * dt - dt / 2, k=8, tolq=5, reload=True),
+        "no-screening/fixed-dt": dict(kind="barhole", dt=dt, solve_time=(24 if ctx.quick else 60) * dt - dt / 2, k=8, tolq=5, reload=True, post=True),
         # a time- and position-dependent disorder_epsilon given point by point (xi = 0.8 um is not 1 in any of the unit systems)
         "no-screening/dynamic-epsilon": dict(kind="bar", dt=dt, solve_time=(16 if ctx.quick else 32) * dt - dt / 2, k=4, tolq=5, epsilon="pointwise"),
         "screening/fixed-dt": dict(kind="bar", dt=dt, solve_time=(6 if ctx.quick else 16) * dt - dt / 2, k=3, screening=True, screening_tol=1e-6, tolq=50),
@@ -203,8 +203,8 @@ def _run(ctx):
     jobs, tags = [], []
     variant = {}
     for label, a in fams.items():
-        for u in three + three_more:
-            jobs.append(("call", dict(module="harness.units", func="run_twin", args=dict({k: v for k, v in a.items() if k != "tolq"}, u=u))))
+        for vi, u in enumerate(three + three_more):
+            jobs.append(("call", dict(module="harness.units", func="run_twin", args=dict({k: v for k, v in a.items() if k != "tolq"}, u=u, variant=vi))))
             tags.append((label, u))
         if a.get("epsilon"):       # the vectorized form of the same epsilon, in the reference unit system
             jobs.append(("call", dict(module="harness.units", func="run_twin", args=dict({k: v for k, v in a.items() if k != "tolq"}, u=REF, epsilon="vectorized"))))
@@ -257,6 +257,19 @@ def _run(ctx):
                                "q": [int(max(-2e9, min(2e9, round(x / sc * Q)))) for x in v]})
             ev.append({"run": rid, "key": "frames", "q": [fr["step"] for fr in r_["frames"]]})
             qq = lambda xs, sc: [int(max(-2e9, min(2e9, round(x / sc * Q)))) if x == x else 2 * 10 ** 9 for x in xs]
+            if "post" in r_:            # accessors with explicit units, many calls on the one Solution
+                first = {}
+                for o in refrun.get("post", []):
+                    first.setdefault(o["key"], max(1e-300, max(abs(x) for x in o["v"])))
+                for o in r_["post"]:
+                    if o["key"] in first:
+                        ev.append({"run": f"{rid} {o['call']}", "key": o["key"], "q": qq(o["v"], first[o["key"]])})
+                raised = {}
+                for o in r_["post_outcomes"]:
+                    raised[o["key"]] = max(raised.get(o["key"], 0), o["raised"])
+                for k_, v_ in raised.items():
+                    ev.append({"run": rid, "key": k_ + ": some call raised (0/1)", "q": [v_]})
+                ctx.cov.setdefault("post_processing_accessors_that_raise_in_this_environment", sorted(k_ for k_, v_ in raised.items() if v_))
             if "reloaded" in r_:        # the solution read back with Solution.from_hdf5, and used as a seed
                 rl, rr_ = r_["reloaded"], rid + " (saved and reloaded)"
                 ev.append({"run": rr_, "key": "reload/outcome", "q": [1 if "error" in rl else 0]})
